@@ -2,14 +2,16 @@
 
 package gcsutil
 
-// VerifEntries returns a copy of the lock map's entries (key -> reference count), read under
-// the map mutex. Verification-only (build tag "verif").
-func (l *TransientLockMap) VerifEntries() map[string]int64 {
-	l.mu.Lock()
+// VerifEntries returns a copy of the lock map's entries (key -> reference count). It never
+// blocks: ok is false when the map mutex is held at this moment. Verification-only (build tag "verif").
+func (l *TransientLockMap) VerifEntries() (entries map[string]int64, ok bool) {
+	if !l.mu.TryLock() {
+		return nil, false
+	}
 	defer l.mu.Unlock()
 	out := make(map[string]int64, len(l.locks))
 	for k, v := range l.locks {
 		out[k] = v.refcount
 	}
-	return out
+	return out, true
 }
